@@ -10,15 +10,17 @@ from ..charclass import S, members
 from ..core import PKG, Report
 from ..domain import CONFIG, CONST, ENUM, IDENT, NUM, WORD
 from .c19loc import FieldFlow, Placement, below
+from .c19run import command_callee, state_probe
 from .effects import (callee_of, constant_of, effect_argument, effect_sites, in_context, local_sources, operand_av,
-                      performing, root_canonical, state_dependence)
+                      is_probe, performing, reach, root_canonical, state_dependence)
 
 LEVEL = ("effect analysis: every filesystem/process effect site of the package is enumerated; its path operand (string "
          "structure from the abstract interpreter) must be project_dir/package_dir joined with literal or sanitised components, "
          "and E6 proves over all code points that the sanitisers used for components cannot produce '/', '\\\\', NUL, '.' or "
          "'..'; CFG dominance shows no effect precedes the overwrite decision and that models/ and api/ are removed on every "
          "path and are filled only after a creation that refuses a path still in place; control dependence shows that no write or "
-         "process depends on what the filesystem already holds, apart from the refusal of an existing directory; the overwrite "
+         "process - nor whether the command reaches the builder at all - depends on what the filesystem already holds, apart from the "
+         "refusal of an existing directory, which is decided about project_dir itself; the overwrite "
          "flag reaches Config unmodified.")
 
 # what the output directories themselves may be made of: the user's own choice (--output-path, project / package name overrides,
@@ -30,6 +32,8 @@ ROOT = {CONFIG, CONST, WORD}
 # confines the generation no better than a name from the document unless it has passed a sanitiser
 SAFE = {CONST, WORD, IDENT, NUM, ENUM}
 OUTPUT_DIRS = ("project_dir", "package_dir")
+# probes that say whether a path is there
+EXISTENCE = {"exists", "lexists", "is_dir", "isdir"}
 
 
 def _outdir(text: str) -> str:
@@ -48,7 +52,10 @@ def run(rep: Report, ctx: Any) -> str:
                       "comes from the document or from the configuration - is the result of a sanitiser (IDENT / WORD), a number, an "
                       "enum member or text of the package; sanitiser alphabets contain no path separator / NUL and results cannot be "
                       "'.' or '..'; post-hooks run with cwd=project_dir")
-    rep.rule("R19.2", "no effect before the existing-directory decision; the decision returns an error unless config.overwrite; "
+    rep.rule("R19.2", "no effect before the existing-directory decision - the exclusive creation of an output directory whose "
+                      "FileExistsError is caught, or a test of its existence; the decision is taken about project_dir itself (on every "
+                      "path, through whatever locals), not about another directory or a path below it, and returns an error unless "
+                      "config.overwrite; "
                       "the values of --overwrite and --output-path arrive - themselves, never rebound, nothing computed from them - in "
                       "the fields of the same names of every Config constructed from the command line, and these fields are not "
                       "assigned (nor replaced in a copy) afterwards")
@@ -61,7 +68,11 @@ def run(rep: Report, ctx: Any) -> str:
                       "such as exists / is_file / stat / read / listing, an OSError handler around a filesystem operation, a helper "
                       "containing one, or a local carrying its outcome) and none takes such an outcome as an argument; the one "
                       "sanctioned dependence is the refusal of an existing directory (R19.2). Creating a directory and removing a path "
-                      "are not counted: doing so only when needed gives the same tree")
+                      "are not counted: doing so only when needed gives the same tree. The same holds for whether a generation runs at "
+                      "all: every step from the generate command towards Project.build (followed through imports made inside a "
+                      "function, constructors and methods of the objects built) is independent of such observations; on that way the "
+                      "content of a file that is read (the document, the configuration file) is an input, not an observation, unless "
+                      "the path read leads to the output location - existence, kind, time stamps, sizes and listings always are")
     rep.rule("R19.5", "where told: on every path through the constructor of Project on which Config.output_path is set, project_dir ends up "
                       "denoting that very location (the value itself, Path(...) of it, its absolute / resolved form, or the working "
                       "directory joined with it) - tests on the field are decided by its being set however they are written, "
@@ -199,18 +210,59 @@ def run(rep: Report, ctx: Any) -> str:
                 eff_methods.add(m.qual)
                 changed = True
 
-    # the existing-directory decision: the creation of project_dir whose FileExistsError is caught - in build itself or in a private
-    # helper build delegates to
-    def creates_project_dir(f: Any, s_: ast.stmt) -> bool:
-        return isinstance(s_, ast.Try) and any(h.type is not None and "FileExistsError" in norm(h.type) for h in s_.handlers) and any(
-            e.site_func is f and e.what in ("mkdir", "makedirs") and e.origin is None and "project_dir" in resolved_text(e.target, f.node)
-            and any(x is e.node for b in s_.body for x in ast.walk(b)) for e, _ in real)
+    # the existing-directory decision: the statement that finds out whether the output directory is already there - its creation with
+    # the FileExistsError caught, or a test of its existence - in build itself or in a private helper build delegates to. It is looked
+    # for by what it asks about (a path that leads to one of the output directories); that it asks about project_dir itself is
+    # then a check of its own, so that a decision taken about another directory is reported as such, not lost as a missing anchor
+    def about_outdir(f: Any, x: "ast.expr | None") -> bool:
+        return x is not None and any(_outdir(t.strip()) or any(f".{d}" in t for d in OUTPUT_DIRS) for t in resolved_text(x, f.node).split(" <- "))
 
-    found = [(g, s_) for g in region(ix, build) for s_ in cfg_of(g, cfgs).stmts() if creates_project_dir(g, s_)]
-    rep.require(found, "the existing-directory decision (creation of project_dir with a FileExistsError handler) in Project.build or a "
-                       "helper it calls")
-    dfn, tr = found[0]
-    decision_nodes = {id(e.node) for e, _ in real if e.site_func is dfn and any(x is e.node for b in tr.body for x in ast.walk(b))}
+    def is_project_dir(f: Any, x: "ast.expr | None") -> bool:
+        srcs = local_sources(f.node, x) if x is not None else []
+        return bool(srcs) and all(_outdir(norm(y)) == "project_dir" for y in srcs)
+
+    def existence_probe(f: Any, n: ast.AST) -> "ast.expr | None":
+        """the path whose being there the call asks about"""
+        if isinstance(n, ast.Call) and call_name(n).rsplit(".", 1)[-1] in EXISTENCE and is_probe(ix, f, n):
+            own = isinstance(n.func, ast.Attribute) and not n.args
+            return n.func.value if own else (n.args[0] if n.args else None)   # type: ignore[union-attr]
+        return None
+
+    def creation_subject(f: Any, s_: ast.stmt) -> "ast.expr | None":
+        if isinstance(s_, ast.Try) and any(h.type is not None and "FileExistsError" in norm(h.type) for h in s_.handlers):
+            for e, _ in real:
+                # a creation that tolerates an existing path (exist_ok) asks nothing
+                if e.site_func is f and e.what in ("mkdir", "makedirs") and e.origin is None and about_outdir(f, e.target) \
+                        and _exclusive_creation(ix, e) and any(x is e.node for b in s_.body for x in ast.walk(b)):
+                    return e.target
+        return None
+
+    def probed(f: Any) -> dict[str, ast.expr]:
+        """locals of f that hold the outcome of an existence probe -> the path asked about"""
+        return {name: sub for name, ds in Locals(f.node).defs.items() for _k, _st, v in ds if v is not None
+                for sub in [existence_probe(f, v)] if sub is not None}
+
+    def test_subject(f: Any, s_: ast.stmt) -> "ast.expr | None":
+        if isinstance(s_, ast.If):
+            held = probed(f)
+            for n in ast.walk(s_.test):
+                sub = existence_probe(f, n) or (held.get(n.id) if isinstance(n, ast.Name) else None)
+                if sub is not None and about_outdir(f, sub):
+                    return sub
+            # `if a: if b: ...` asks what `if a and b: ...` asks: the outer statement is where the decision starts
+            if s_.body and isinstance(s_.body[0], ast.If):
+                return test_subject(f, s_.body[0])
+        return None
+
+    found = [(g, s_, sub) for g in region(ix, build) for s_ in cfg_of(g, cfgs).stmts()
+             for sub in [creation_subject(g, s_) or test_subject(g, s_)] if sub is not None]
+    rep.require(found, "the existing-directory decision (creation of an output directory with a FileExistsError handler, or a test of its "
+                       "existence) in Project.build or a helper it calls")
+    found = [t for t in found if not any(isinstance(o[1], ast.If) and o[1].body and o[1].body[0] is t[1] for o in found)]
+    found.sort(key=lambda t: not is_project_dir(t[0], t[2]))   # stable: the one about project_dir first, else the first met
+    dfn, tr, subject = found[0]
+    decision_nodes = {id(e.node) for e, _ in real if e.site_func is dfn and isinstance(tr, ast.Try)
+                      and any(x is e.node for b in tr.body for x in ast.walk(b))}
 
     # when the directory exists and config.overwrite is false, every way through the handler ends in a returned error - however the
     # test is written (`if not overwrite: return err` / `if overwrite: ... else: return err` / `if overwrite: return None; return err`)
@@ -221,15 +273,33 @@ def run(rep: Report, ctx: Any) -> str:
 
     handler_ok = False
     refusals: set[ast.stmt] = set()   # the statements of build that leave it with the refusal
-    for h in tr.handlers:
-        if h.type is not None and "FileExistsError" in norm(h.type):
-            terms, falls = terminals(h.body, no_overwrite)
-            handler_ok = bool(terms) and not falls and all(isinstance(x, ast.Return) and constructs_error(x.value) for x in terms)
-            if dfn is build:
-                refusals |= terms
-    rep.check(handler_ok, "R19.2", "Project.build::existing-directory-decision",
-              "an existing output directory does not lead to a returned GeneratorError unless config.overwrite", where(dfn, tr),
-              lhs=norm(tr)[:120], rhs="except FileExistsError: if not self.config.overwrite: return [GeneratorError(...)]")
+    if isinstance(tr, ast.Try):
+        for h in tr.handlers:
+            if h.type is not None and "FileExistsError" in norm(h.type):
+                terms, falls = terminals(h.body, no_overwrite)
+                handler_ok = bool(terms) and not falls and all(isinstance(x, ast.Return) and constructs_error(x.value) for x in terms)
+                if dfn is build:
+                    refusals |= terms
+    else:
+        # a test of existence: with the directory there and config.overwrite false, every way on from the test ends in a returned error
+        held = probed(dfn)
+
+        def there_no_overwrite(t: ast.expr) -> "bool | None":
+            if existence_probe(dfn, t) is not None or (isinstance(t, ast.Name) and t.id in held):
+                return True
+            return no_overwrite(t)
+
+        terms, falls = terminals(_from(dfn.node, tr), there_no_overwrite)
+        handler_ok = bool(terms) and not falls and all(isinstance(x, ast.Return) and constructs_error(x.value) for x in terms)
+        if dfn is build and handler_ok:
+            refusals |= terms
+    about = is_project_dir(dfn, subject)
+    rep.check(handler_ok and about, "R19.2", "Project.build::existing-directory-decision",
+              "an existing output directory does not lead to a returned GeneratorError unless config.overwrite" if not handler_ok else
+              f"the existing-directory decision is taken about `{norm(subject)}` = {[norm(x)[:40] for x in local_sources(dfn.node, subject)][:3]}, "
+              "not (on every path) about project_dir itself: an output directory that exists is written into without --overwrite "
+              "whenever the other path is not there", where(dfn, tr),
+              lhs=norm(tr)[:120], rhs="except FileExistsError: if not self.config.overwrite: return [GeneratorError(...)]  (about self.project_dir)")
     # the point of build after which the decision has been taken: the try itself, or - when a helper takes it - the test of the
     # helper's result whose error arm leaves build with that error
     point: ast.stmt | None = tr
@@ -482,6 +552,27 @@ def run(rep: Report, ctx: Any) -> str:
                   f"regenerating over an earlier generation no longer gives the tree a fresh generation produces", where(d.func, d.call),
                   lhs=d.on[:3], rhs="decided by the document and the configuration only")
     floor("state_independent_writes", n_indep, 10)
+    # whether a generation runs at all is decided the same way: on the way from the command down to Project.build - through the import
+    # made inside the command, the constructor, the method of the object just built - every step towards build (and anything written
+    # on the way) is looked at like the writes inside build. Up there the document and the configuration file are read: their content
+    # is what the generation is a function of, so reading the content of a file is an observation only when the path read leads to the
+    # output location; existence, kind, metadata (time stamps, sizes) and listings always are
+    callee = command_callee(it)
+    inside = {g.qual for g in reach(ix, build)} | {g.qual for g in (reach(ix, init) if init else [])}
+    running = {id(c) for g in reach(ix, cli_gen, callee) for c in ast.walk(g.node)
+               if isinstance(c, ast.Call) and callee(ix, g, c) is build}
+    rep.require(running, "the call of Project.build on the way from the generate command")
+    n_run = 0
+    for d in state_dependence(ix, cli_gen, producing | running, touching, {id(x) for x in refusals}, cfgs, callee=callee, probe=state_probe):
+        if d.func.qual in inside:
+            continue
+        n_run += 1
+        rep.check(not d.on, "R19.4", f"{short(d.func)}::{norm(d.call)[:50]}::independent-of-existing-files",
+                  f"`{norm(d.call)[:70]}` - a step from the command towards Project.build - happens, or gets its arguments, depending on what "
+                  f"the filesystem already holds ({d.on[:3]}): whether a generation runs is no longer decided by the document and the "
+                  f"configuration, regenerating over an earlier generation may leave it as it is", where(d.func, d.call),
+                  lhs=d.on[:3], rhs="decided by the document and the configuration only")
+    floor("steps_from_command_to_build", n_run, 1)
     if short_of:
         if not rep.findings:
             rep.floor(*short_of[0])
@@ -515,6 +606,16 @@ def _strict_removal(ix: Any, e: Any, cfgs: dict) -> bool:
                     if not ts or any(norm(t).rsplit(".", 1)[-1] != "FileNotFoundError" for t in ts):
                         return False
     return True
+
+
+def _from(fn: ast.AST, st: ast.stmt) -> list[ast.stmt]:
+    """st and the statements that follow it in the block it stands in"""
+    for n in ast.walk(fn):
+        for fld in ("body", "orelse", "finalbody"):
+            blk = getattr(n, fld, None)
+            if isinstance(blk, list) and any(x is st for x in blk):
+                return blk[next(i for i, x in enumerate(blk) if x is st):]
+    return [st]
 
 
 def _rooted(fn: ast.AST, target: ast.expr | None) -> bool:
